@@ -145,6 +145,8 @@ def mk_params(E, n, npt, maxfun, preset='default', small_history=True):
         if v == 'SYM>=0':
             v = E.real('noise_level', npy=False, lo=0)
         P(k, new_value=v)
+    if P.params["noise.quit_on_noise_level"] and P.params["noise.multiplicative_noise_level"] is None and P.params["noise.additive_noise_level"] is None:
+        P.params["noise.additive_noise_level"] = E.const(0)      # what solve() does during validation when no noise level is given
     if small_history:
         # bounded configuration: short histories (user-settable parameters) keep list lengths concrete and small
         P.params["restarts.soft.max_fake_successful_steps"] = 2
